@@ -1942,11 +1942,16 @@ impl<T> Rc<T> {
     /// `ptr` must point into an allocation that has not been released.
     #[must_use]
     pub unsafe fn __verif_links(ptr: *const T) -> Option<alloc::vec::Vec<(usize, u8, usize)>> {
-        let rc = ManuallyDrop::new(Rc::<T>::from_raw(ptr));
-        if rc.inner().is_dead() {
+        // Locate the `RcBox` independently of `from_raw`/`data_offset`, which
+        // are themselves under observation.
+        let rcbox = &*ptr
+            .cast::<u8>()
+            .sub(mem::offset_of!(RcBox<T>, value))
+            .cast::<RcBox<T>>();
+        if rcbox.is_dead() {
             return None;
         }
-        let links = rc.inner().links().try_borrow().ok()?;
+        let links = rcbox.links().try_borrow().ok()?;
         let mut snapshot = alloc::vec::Vec::new();
         for (link, &count) in links.iter() {
             let kind = match link.kind() {
@@ -1968,7 +1973,10 @@ impl<T> Rc<T> {
     /// `ptr` must point into an allocation that has not been released.
     #[must_use]
     pub unsafe fn __verif_raw_strong(ptr: *const T) -> usize {
-        let rc = ManuallyDrop::new(Rc::<T>::from_raw(ptr));
-        rc.inner().strong()
+        let rcbox = &*ptr
+            .cast::<u8>()
+            .sub(mem::offset_of!(RcBox<T>, value))
+            .cast::<RcBox<T>>();
+        rcbox.strong()
     }
 }
